@@ -2,6 +2,7 @@ import GoawkModel.Basic
 import GoawkModel.C05
 import GoawkModel.C05Float
 import GoawkModel.C05Cmp
+import GoawkModel.C05Store
 /-!
 Line-protocol handler for property C05 (bytes in hex, `-` = empty; bit patterns as decimal naturals).
 
@@ -11,6 +12,9 @@ Line-protocol handler for property C05 (bytes in hex, `-` = empty; bit patterns 
 * `c <opcode> <val> <val>` → `0` | `1` | `none` (unfused opcode: Boolean pushed; fused opcode: jumps?)
 * `j <token> <invert 0/1> <val> <val>` → whether the jump emitted by `condition()` is taken
   values: `u` null, `s<hex>` string, `f<hex>` numeric string, `n<bits>` number
+* `g <op> <arg> <hex> <val>` → `<16 probe bits>|<hex of the text>` of the target after a store that may not happen
+  (`GoawkModel.C05Store`): `getline <status> <line> <old>`, `sub <count> <out> <old>`, `forin <0|1> <key> <old>`,
+  `split <index k> <the one piece, or none> u`; the probe bits are those of the harness function Q
 -/
 namespace GoawkModel.Drv.C05
 open GoawkModel GoawkModel.C05
@@ -34,6 +38,29 @@ def renderOB : Option Bool → String
   | some true => "1"
   | some false => "0"
   | none => "none"
+
+def b01 (b : Bool) : String := if b then "1" else "0"
+
+/-- the sixteen comparison / truth probes of the harness function `Q` (f1 f2 f3 = the input texts 10, 9, abc) -/
+def qBits (v : Val) : String :=
+  let cmp (op : CmpOp) (r : Val) := compareWith exactStrconv fmtG6 op op v r
+  let n (i : Int) : Val := .num (.ofInt i)
+  let f1 : Val := .numstr [49, 48]
+  let f2 : Val := .numstr [57]
+  let f3 : Val := .numstr [97, 98, 99]
+  let t := toBool exactStrconv v
+  let z := cmp .eq (n 0)
+  let e := cmp .eq (.str [])
+  String.join [b01 (cmp .lt (n 9)), b01 (cmp .eq (n 10)), b01 (cmp .lt (.str [57])), b01 (cmp .eq (n 5)), b01 (cmp .lt (n 10)),
+    b01 (cmp .ge (n 10)), b01 (cmp .ne (n 5)), b01 t, b01 z, b01 e, b01 (!t),
+    b01 (cmp .eq f1), b01 (cmp .lt f2), b01 (cmp .lt f3), b01 (cmp .gt f1), b01 (z && e)]
+
+def storeResult (op arg : String) (h : Bytes) (old : Val) : Option Val :=
+  match op with
+  | "getline" => arg.toInt?.map fun r => getlineStore r h old
+  | "sub" => arg.toNat?.map fun n => subStore n h old
+  | "forin" => arg.toNat?.map fun n => forInStore (List.replicate n h) old
+  | _ => none
 
 def handle (args : List String) : String :=
   match args with
@@ -59,6 +86,17 @@ def handle (args : List String) : String :=
   | ["j", tok, inv, l, r] =>
     match parseVal l, parseVal r with
     | some l, some r => renderOB (condJumps exactStrconv fmtG6 tok (inv == "1") l r)
+    | _, _ => "bad-val"
+  | ["g", "split", k, piece, _] =>
+    match k.toNat?, (if piece == "none" then some [] else (fromHex piece).map fun p => [p]) with
+    | some k, some parts => let v := splitElem parts k; qBits v ++ "|" ++ toHex (toStr fmtG6 v)
+    | _, _ => "bad-split"
+  | ["g", op, arg, h, old] =>
+    match fromHex h, parseVal old with
+    | some h, some old =>
+      match storeResult op arg h old with
+      | some v => qBits v ++ "|" ++ toHex (toStr fmtG6 v)
+      | none => "bad-store"
     | _, _ => "bad-val"
   | _ => "bad-request"
 
